@@ -74,6 +74,9 @@ class Header(Harness):
     functions = ("EZSPv4._ezsp_frame_tx", "EZSPv4._ezsp_frame_rx", "EZSPv5._ezsp_frame_tx", "EZSPv5._ezsp_frame_rx",
                  "EZSPv8._ezsp_frame_tx", "EZSPv8._ezsp_frame_rx")
 
+    def must_reach_for(self, params):
+        return sorted({E.family(v) for v in params.get("versions", VERSIONS)})
+
     def run(self, ctx, versions=VERSIONS):
         version = versions[ctx.choice("version", len(versions))]
         fam = E.family(version)
